@@ -366,10 +366,13 @@ spec:
 	}
 	// the shape of the app layer, chosen up front
 	roll := g.Intn(100)
-	wantDeletes := roll < 12
-	wantOverlap := allowOverlap && roll >= 12 && roll < 30
-	wantJSONMeta := roll >= 30 && roll < 70
-	wantMulti := roll >= 50 && roll < 70
+	wantDeletes := roll < 8
+	wantMetaMaps := roll >= 8 && roll < 13
+	wantFileInline := roll >= 13 && roll < 20
+	wantCustomFields := roll >= 20 && roll < 27
+	wantOverlap := allowOverlap && roll >= 27 && roll < 36
+	wantJSONMeta := roll >= 36 && roll < 72
+	wantMulti := roll >= 54 && roll < 72
 	baseGens := wantJSONMeta || g.Chance(50)
 	if baseGens {
 		// generator outputs of the base still await their hash suffix while the app layer is processed
@@ -464,6 +467,46 @@ spec:
 			t.NamePrefix = "app-"
 		}
 		return t
+	}
+	if wantMetaMaps {
+		// finding PIPE/patch-spelling: a strategic-merge patch whose metadata.labels hold a null (delete) and a
+		// number. patchesStrategicMerge (and targeted patches) rewrite the patch's labels/annotations through
+		// map[string]string ("null", "1"), the target-less `patches:` entry that `edit fix` writes applies them
+		// as written: the spellings build differently (known finding, the guard of C19_fix_preserves_build_partial)
+		t.Mode = "smp-metadata-maps"
+		t.Files["base/deployment.yaml"] = strings.Replace(t.Files["base/deployment.yaml"], "  labels:\n    dl: x\n", "  labels:\n    dl: x\n    keep: me\n", 1)
+		t.Files["app/smp.yaml"] = "apiVersion: apps/v1\nkind: Deployment\nmetadata:\n  name: web\n  labels:\n    keep: null\n    n: 1\n"
+		t.SMPatches = []string{"smp.yaml"}
+		t.CommonLabels, t.Labels = nil, nil
+		if g.Chance(40) {
+			t.NamePrefix = "app-"
+		}
+		return t
+	}
+	if wantFileInline {
+		// a MIXED patchesStrategicMerge list, a file entry BEFORE an inline entry, both writing the same field of
+		// the same resource: the entries are applied in list order in both spellings (the later one wins)
+		t.Mode = "smp-file-then-inline"
+		t.Files["app/smp.yaml"] = "apiVersion: apps/v1\nkind: Deployment\nmetadata:\n  name: web\nspec:\n  replicas: 5\n"
+		inline := "apiVersion: apps/v1\nkind: Deployment\nmetadata:\n  name: web\nspec:\n  replicas: 2\n"
+		t.SMPatches = []string{"smp.yaml", inline}
+		if g.Chance(40) {
+			t.Files["app/smp2.yaml"] = "apiVersion: apps/v1\nkind: Deployment\nmetadata:\n  name: web\nspec:\n  replicas: 7\n"
+			t.SMPatches = []string{inline, "smp.yaml", strings.Replace(inline, "replicas: 2", "replicas: 3", 1), "smp2.yaml"}
+		}
+	}
+	if wantCustomFields {
+		// a labels entry with custom `fields:` for a custom kind, next to commonLabels: the entry the rewrite
+		// appends for commonLabels must use the commonLabels field specs only, not an earlier entry's custom ones
+		t.Mode = "labels-custom-fields"
+		t.Files["app/myapp.yaml"] = "apiVersion: example.com/v1\nkind: MyApp\nmetadata:\n  name: m\nspec:\n  x: 1\n"
+		t.Resources = append(t.Resources, "myapp.yaml")
+		t.CommonLabels = map[string]string{"team": "x"}
+		t.Labels = []types.Label{{Pairs: map[string]string{"tier": "t1"}, IncludeTemplates: g.Bool(),
+			FieldSpecs: []types.FieldSpec{{Gvk: resid.Gvk{Kind: "MyApp"}, Path: "spec/podLabels", CreateIfNotPresent: true}}}}
+		if g.Chance(40) {
+			t.Labels = append(t.Labels, types.Label{Pairs: map[string]string{"zone": "z"}})
+		}
 	}
 	if wantOverlap {
 		// the SAME key in a labels entry and in commonLabels, different values: the hand rewrite puts the
@@ -589,7 +632,11 @@ func (t *c19Tree) render(dep map[string]bool) string {
 		}
 	} else {
 		for _, p := range t.SMPatches {
-			k.Patches = append(k.Patches, types.Patch{Path: p})
+			if strings.Contains(p, "\n") {
+				k.Patches = append(k.Patches, types.Patch{Patch: p}) // an inline entry
+			} else {
+				k.Patches = append(k.Patches, types.Patch{Path: p})
+			}
 		}
 	}
 	k.NamePrefix = t.NamePrefix
@@ -697,6 +744,11 @@ func c19SpellingLaws(r *Run, t *c19Tree, subsets []map[string]bool) {
 			continue
 		}
 		if out != ref {
+			if t.Mode == "smp-metadata-maps" && name == "patchesStrategicMerge" {
+				r.Violation(OracleViolation{Law: "spelling_equivalence", Class: "patch-spelling-metadata-maps-restringified",
+					Detail: fmt.Sprintf("with patchesStrategicMerge:\n%s\nwith target-less patches:\n%s", out, ref), Replay: map[string]interface{}{"tree": t, "subset": name}})
+				continue
+			}
 			r.Violation(OracleViolation{Law: "spelling_equivalence", Class: "deprecated-spelling-changes-build:" + name,
 				Detail: fmt.Sprintf("with %s deprecated:\n%s\nall current:\n%s", name, out, ref), Replay: map[string]interface{}{"tree": t, "subset": name}})
 		}
@@ -790,7 +842,11 @@ func c19FixBuildLaw(r *Run, t *c19Tree) {
 		return
 	}
 	if after != before {
-		r.Violation(OracleViolation{Law: "fix_preserves_build", Class: "fix-changes-build", Detail: fmt.Sprintf("fixed file:\n%s\nbefore:\n%s\nafter:\n%s", fixed, before, after), Replay: rp})
+		class := "fix-changes-build"
+		if t.Mode == "smp-metadata-maps" {
+			class = "patch-spelling-metadata-maps-restringified"
+		}
+		r.Violation(OracleViolation{Law: "fix_preserves_build", Class: class, Detail: fmt.Sprintf("fixed file:\n%s\nbefore:\n%s\nafter:\n%s", fixed, before, after), Replay: rp})
 	}
 }
 
